@@ -855,7 +855,8 @@ def validate(recs, tag, invariants=("Conforms", "NoPropertyViolation", "C06_Pari
     """returns dict(accepted, violated, line, diag, states, out, path)"""
     os.makedirs(os.path.join(vlib.OUT, "traces"), exist_ok=True)
     path = os.path.join(vlib.OUT, "traces", tag + ".ndjson")
-    n = recorder.write_traces(path, recs)
+    known = sorted({(k["property"], k["signature"]) for k in vlib.load_known_findings() if k["status"] == "open"})
+    n = recorder.write_traces(path, recs, known=known)
     cfg = os.path.join(vlib.OUT, "traces", tag + ".cfg")
     with open(cfg, "w") as f:
         f.write("SPECIFICATION Spec\n")
@@ -864,7 +865,9 @@ def validate(recs, tag, invariants=("Conforms", "NoPropertyViolation", "C06_Pari
         f.write("POSTCONDITION Accepted\nCHECK_DEADLOCK FALSE\n")
     res = vlib.run_tlc("ArrayTrace", cfg=cfg, workers=1, env={"TRACE": path}, timeout=timeout, tag=tag, xmx="4g")
     out = {"path": path, "lines": n, "states": res.distinct, "generated": res.generated, "violated": res.violated,
-           "error": res.error, "accepted": False, "line": None, "diag": None, "pviol": None, "raw": res.out[-6000:]}
+           "error": res.error, "accepted": False, "line": None, "diag": None, "pviol": None, "raw": res.out[-6000:],
+           # occurrences of recorded known findings: (property, signature, 1-based line of the trace file)
+           "known_hits": [(a, b, int(c)) for a, b, c in re.findall(r'<<"KNOWN-HIT", "(C\d\d)", "([^"]+)", (\d+)>>', res.out)]}
     if res.violated:
         m = re.findall(r"/\\ l = (\d+)", res.out)
         if m:
